@@ -405,9 +405,7 @@ func c01Run(c *core.Ctx) *core.Result {
 				st.Uid = 4242
 			}
 			st.Gid = st.Gid/2 + 7
-			if os.FileMode(st.Mode)&os.ModeSymlink == 0 {
-				st.Mode &^= 0o002
-			}
+			st.Mode &^= 0o002 // (also for symlinks: their permission bits are no difference)
 			return true
 		}
 		ropt.Filter = flt
